@@ -196,9 +196,11 @@ def list_dotted_names(fn: Callable) -> Set[str]:
         extractor = ReferenceExtractor()
         extractor.visit(parsed)
         result = extractor.references
-        # Remove any local variables and cell variables
-        if hasattr(fn, "__code__"):
-            code_obj = fn.__code__
+        # Remove any local variables and cell variables. The source above is that of the
+        # innermost wrapped function, so its code object (not the wrapper's) names them.
+        inner_fn = inspect.unwrap(fn)
+        if hasattr(inner_fn, "__code__"):
+            code_obj = inner_fn.__code__
             local_vars = set()  # type: Set[str]
             local_vars.update(code_obj.co_varnames)
             local_vars.update(code_obj.co_cellvars)
